@@ -10,7 +10,7 @@
    Define / Observe / Panic) and over ALL schedules — proved by induction over the schedule with an invariant of
    the machine (Proofs/CtxProofs.v: `Inv`, `step_inv`). *)
 From Coq Require Import ZArith NArith Bool List.
-From PcoreV Require Import Model.Base Model.Ctx Proofs.CtxProofs Proofs.CtxIsolation.
+From PcoreV Require Import Model.Base Model.Ctx Proofs.CtxProofs Proofs.CtxIsolation Proofs.CtxTermination.
 Import ListNotations.
 Local Open Scope nat_scope.
 
@@ -101,6 +101,20 @@ Proof.
   symmetry. apply live_tables_zero. intros g. apply tl_find_all_none.
 Qed.
 Print Assumptions C14_tls_released.
+
+(* The hypothesis `finished` can always be met: every step of a goroutine that has not ended consumes a statement or
+   a frame (Proofs/CtxTermination.v), so every reachable configuration has a continuation of the schedule that ends
+   all goroutines — and then no goroutine-local table is left. *)
+Theorem C14_tls_released_eventually :
+  forall roots sched0, exists sched,
+    let c := run (sched0 ++ sched) (init_config roots) in
+    finished c = true /\ live_tables (tls (sh c)) = 0.
+Proof.
+  intros roots sched0. destruct (can_finish (run sched0 (init_config roots))) as [sched Hf].
+  exists sched. unfold run in *. rewrite fold_left_app. split; [exact Hf|].
+  apply released_all; [|exact Hf]. apply run_inv. apply reachable_inv.
+Qed.
+Print Assumptions C14_tls_released_eventually.
 
 (* The goroutine-local table is never found missing by px code (threadlocal.Set never panics with "thread local
    not initialized"): no trace of any goroutine under any schedule contains that panic. *)
